@@ -388,9 +388,6 @@ theorem Tables.WF.mask (h : T.WF) (g : Int) : MaskOk (maskNs T g) (maskByN T g) 
 
 /-! ## 4. per-scalar round trips, XML -/
 
-def int32Ok (v : Int) : Bool := decide (-2147483648 ≤ v) && decide (v ≤ 2147483647)
-def int64Ok (v : Int) : Bool := decide (-9223372036854775808 ≤ v) && decide (v ≤ 9223372036854775807)
-
 theorem int32Ok_iff {v : Int} : int32Ok v = true ↔ -2147483648 ≤ v ∧ v ≤ 2147483647 := by
   simp [int32Ok]
 theorem int64Ok_iff {v : Int} : int64Ok v = true ↔ -9223372036854775808 ≤ v ∧ v ≤ 9223372036854775807 := by
@@ -543,8 +540,6 @@ theorem jMask_text {names : List Nat} {byName : Table} (ok : MaskOk names byName
   rw [signed_unsigned32 v h1 (by omega)]
 
 /-! ## 6. the representable domain -/
-
-def tagOk (t : Int) : Bool := decide (0 < t) && decide (t < 16777216)
 
 theorem tagOk_iff {t : Int} : tagOk t = true ↔ 0 < t ∧ t < 16777216 := by simp [tagOk]
 
